@@ -89,7 +89,9 @@ func (set *Set) GetRandom(count int) []string {
 		return []string{}
 	}
 
-	if internal.AbsInt(count) >= set.Cardinality() {
+	// A positive count at least as large as the set selects every member. A negative count always selects
+	// |count| members (repeats allowed), unless there is nothing to select from.
+	if count >= set.Cardinality() || len(keys) == 0 {
 		return keys
 	}
 
